@@ -184,17 +184,26 @@ func (f *formatter) FormatSchema(schema *ast.Schema) {
 			f.IncrementIndent()
 		}
 	}
-	if schema.Query != nil && schema.Query.Name != "Query" {
+	// Root operation types are only inferred from the default names when there is no
+	// schema definition at all, so once one root needs the block, every root is listed;
+	// so is a root-less type that merely bears a default root name.
+	needSchema := (schema.Query != nil && schema.Query.Name != "Query") ||
+		(schema.Mutation != nil && schema.Mutation.Name != "Mutation") ||
+		(schema.Subscription != nil && schema.Subscription.Name != "Subscription") ||
+		(schema.Query == nil && schema.Types["Query"] != nil) ||
+		(schema.Mutation == nil && schema.Types["Mutation"] != nil) ||
+		(schema.Subscription == nil && schema.Types["Subscription"] != nil)
+	if schema.Query != nil && needSchema {
 		startSchema()
 		f.WriteWord("query").NoPadding().WriteString(":").NeedPadding()
 		f.WriteWord(schema.Query.Name).WriteNewline()
 	}
-	if schema.Mutation != nil && schema.Mutation.Name != "Mutation" {
+	if schema.Mutation != nil && needSchema {
 		startSchema()
 		f.WriteWord("mutation").NoPadding().WriteString(":").NeedPadding()
 		f.WriteWord(schema.Mutation.Name).WriteNewline()
 	}
-	if schema.Subscription != nil && schema.Subscription.Name != "Subscription" {
+	if schema.Subscription != nil && needSchema {
 		startSchema()
 		f.WriteWord("subscription").NoPadding().WriteString(":").NeedPadding()
 		f.WriteWord(schema.Subscription.Name).WriteNewline()
